@@ -25,6 +25,7 @@ type PropSpec struct {
 	Assumptions []string `json:"assumptions"`
 	Bounded     []string `json:"bounded"`
 	Storelab    []string `json:"storelab"` // L0 functions checked (bounded) on real SQLite against reference oracles
+	Wirelab     []string `json:"wirelab"`  // assumed wire contracts / top-level codec statement checked (bounded) on the real codec
 }
 
 type Result struct {
@@ -411,6 +412,7 @@ func cmdCheck(args []string) int {
 	}
 	slRes := runStorelab(*verif, *repo, ps, *tier, work)
 	storelabResults = slRes
+	wirelabResults = runWirelab(*verif, *repo, ps, *tier, work)
 	return report(*verif, *repo, ps, *tier, *seed, results, reports, genErrors, sp, start, loadS, genS, *noEvidence)
 }
 
@@ -459,6 +461,48 @@ func runStorelab(verif, repo string, ps *PropSpec, tier, work string) *storelabR
 	for _, f := range ps.Storelab {
 		if !seen[f] {
 			res.Error = "storelab produced no result for " + f + ": " + tail(string(out), 600)
+		}
+	}
+	res.WallS = time.Since(start).Seconds()
+	return res
+}
+
+var wirelabResults *storelabResult
+
+// runWirelab: bounded conformance of the assumed contracts of internal/wire and a bounded cross-check of
+// the codec round trip, on the real code (wirelab/wirelab_test.go.txt, injected with -overlay).
+func runWirelab(verif, repo string, ps *PropSpec, tier, work string) *storelabResult {
+	if len(ps.Wirelab) == 0 {
+		return nil
+	}
+	res := &storelabResult{N: 1}
+	if tier == "thorough" {
+		res.N = 6
+	}
+	start := time.Now()
+	ov := map[string]map[string]string{"Replace": {filepath.Join(repo, "internal", "wire", "zz_wirelab_test.go"): filepath.Join(verif, "wirelab", "wirelab_test.go.txt")}}
+	ob, _ := json.Marshal(ov)
+	ovf := filepath.Join(work, "wirelab_overlay.json")
+	os.WriteFile(ovf, ob, 0o644)
+	ctx, cancel := context.WithTimeout(context.Background(), 900*time.Second)
+	defer cancel()
+	cmd := exec.CommandContext(ctx, "go", "test", "-overlay", ovf, "-vet=off", "-count=1", "-v", "-timeout", "800s", "-run", "^TestWirelab$", "./internal/wire/")
+	cmd.Dir = repo
+	cmd.Env = append(os.Environ(), "GOFLAGS=-mod=mod", "GOPROXY=off", fmt.Sprintf("WIRELAB_N=%d", res.N), "WIRELAB_FUNCS="+strings.Join(ps.Wirelab, ","))
+	out, _ := cmd.CombinedOutput()
+	seen := map[string]bool{}
+	for _, l := range strings.Split(string(out), "\n") {
+		l = strings.TrimSpace(l)
+		if strings.HasPrefix(l, "WIRELAB-MISMATCH ") {
+			res.Mismatches = append(res.Mismatches, l)
+		} else if strings.HasPrefix(l, "WIRELAB func=") {
+			res.Lines = append(res.Lines, l)
+			seen[strings.TrimPrefix(strings.Fields(l)[1], "func=")] = true
+		}
+	}
+	for _, f := range ps.Wirelab {
+		if !seen[f] {
+			res.Error = "wirelab produced no result for " + f + ": " + tail(string(out), 600)
 		}
 	}
 	res.WallS = time.Since(start).Seconds()
@@ -580,6 +624,22 @@ func report(verif, repo string, ps *PropSpec, tier string, seed int, results []*
 		}
 		for f, ms := range byFunc {
 			emitViolation("storelab/"+f, map[string]interface{}{"obligation": "storelab/" + f, "kind": "bounded-conformance", "reason": "the real function, run on a real SQLite database, disagrees with the oracle of its assumed (trusted) contract on a concrete table: the proofs that assume this contract no longer apply", "failing_cases": ms, "replay_verdict": "confirmed-on-real-code (the mismatch is an execution of the real function)"}, true)
+		}
+	}
+	if wl := wirelabResults; wl != nil {
+		for _, l := range wl.Lines {
+			boundedEv = append(boundedEv, "BOUNDED (real codec, oracle written from the assumed contract / the property statement): "+l)
+		}
+		if wl.Error != "" {
+			emitViolation("wirelab/run", map[string]interface{}{"obligation": "wirelab/run", "reason": "the bounded conformance run did not complete", "detail": wl.Error}, false)
+		}
+		byFunc := map[string][]string{}
+		for _, m := range wl.Mismatches {
+			f := strings.TrimPrefix(strings.Fields(m)[1], "func=")
+			byFunc[f] = append(byFunc[f], m)
+		}
+		for f, ms := range byFunc {
+			emitViolation("wirelab/"+f, map[string]interface{}{"obligation": "wirelab/" + f, "kind": "bounded-conformance", "reason": "the real codec, executed on concrete inputs, disagrees with the oracle written from an assumed (trusted) contract of internal/wire or from the statement of the property: the proofs that assume this contract no longer apply", "failing_cases": ms, "replay_verdict": "confirmed-on-real-code (the mismatch is an execution of the real function)"}, true)
 		}
 	}
 	for _, e := range genErrors {
